@@ -22,6 +22,7 @@ import (
 
 	"github.com/Breeze0806/gobinlog/replication"
 	"verif/chk"
+	"verif/e2"
 	"verif/e3/util"
 	"verif/ref"
 )
@@ -585,6 +586,9 @@ func (c *checker) doc(w *scratch, d *ref.JDoc) {
 }
 
 func replay(kind string, input json.RawMessage) (bool, string) {
+	if kind == "partial" {
+		return e2.ReplayPartial(input)
+	}
 	var in replayInput
 	if err := json.Unmarshal(input, &in); err != nil {
 		return false, err.Error()
@@ -1138,6 +1142,8 @@ func run(r *chk.Run) {
 	r.Assume("the all-large variant (small content in large containers) is what a server leaves after an in-place partial update shrank a large value; nested containers of the padded variants follow the server rule small-unless-over-64KB")
 	r.Assume("a double and an integer that are numerically equal denote the same JSON number; DECIMAL casts must carry the stored precision and scale")
 	r.Assume("fan-out 40 members other than the chosen one cycle through the kernel alphabet; documents above the node budget are not enumerated")
+	// the empty JSON value in front of other columns, in partial row images (E2)
+	e2.RunPartialImages(r)
 	r.SetExhaustive(!stop.Load())
 }
 
